@@ -1569,6 +1569,15 @@ def y_theorem_replay(ctx, pairs):
                 if agree(he, dv) is not True:
                     ctx.break_("correspondence", {"name": "Y.C12_datetime_hash_iff_diff", "a": lit(a), "b": lit(b), "options": name_of(sp),
                                                   "what": "two datetimes at a directly compared position: hash_eq=%r diff=%s" % (he, dv)})
+            elif type(a) is datetime.timedelta and type(b) is datetime.timedelta:
+                # Y.C12_timedelta_hash_iff_diff: equal hashes <-> nothing reported; DeepHash raises exactly when a precision is in force
+                prec = sp["sig"] is not None or sp["numty"]
+                he, dv = hash_verdict(a, b, kw, rep), diff_verdict(a, b, kw, rep)[0]
+                ctx.count("theorem_y_timedelta:%s" % ("precision_in_force(DeepHash raises)" if prec else "no_precision"))
+                raised = not isinstance(he, bool)
+                if raised != prec or (not prec and agree(he, dv) is not True) or dv.startswith("EXC:"):
+                    ctx.break_("correspondence", {"name": "Y.C12_timedelta_hash_iff_diff", "a": lit(a), "b": lit(b), "options": name_of(sp),
+                                                  "what": "two timedeltas: hash_eq=%r diff=%s, precision in force: %r" % (he, dv, prec)})
             elif sp["enum"] and isinstance(a, Enum) and not (isinstance(b, Enum) and type(b) is type(a)):
                 ub = b.value if isinstance(b, Enum) else b
                 if a.value is None and ub is None:
@@ -1585,8 +1594,8 @@ def y_theorem_replay(ctx, pairs):
                 n_en += 1
                 ctx.count("theorem_y_enum_transfer:hypotheses_hold")
                 if type(a.value) is type(ub):
-                    # same-typed values: the comparer without type check is the ordinary comparer, so the right-hand side of the
-                    # transfer theorem is the property for the two plain values - observable
+                    # Y.C12_enum_same_type: same-typed values - _diff treats the member exactly as its value, so the property for the
+                    # pair IS the property for the two plain values (a theorem since wave 2; hypotheses observed here)
                     n_en_same += 1
                     lhs = agree(hash_verdict(a, b, kw, rep), diff_verdict(a, b, kw, rep)[0])
                     rhs = agree(hash_verdict(a.value, ub, kw, rep), diff_verdict(a.value, ub, kw, rep)[0])
@@ -1632,6 +1641,49 @@ def trunc_touches_non_datetime(t1, t2, sp):
     """the cases whose diff-side model is the branch changed by 1c8f0f8: truncate_datetime with a date / timedelta value, or with the
     numeric type group in force (a number may face a datetime / time)"""
     return bool(sp["trunc"]) and (sp["numty"] or any(_is_date_or_td(a) for a in all_atoms2(t1, t2)))
+
+
+def y_pools(ctx, specs):
+    """the stand-alone hash model over the extended universe INCLUDING lists / tuples (which the diff side of the Y model does not
+    have): SHA-256 equality pattern of DeepHash(v, **F)[v] over a pool of values and their option-normalised variants, against
+    HashDiffYShow.run_c12y_classes (yhash with an injective hasher)"""
+    from deepdiff import DeepHash
+    rng = ctx.rng
+    cases = []
+    for sp in specs:
+        kw = kwargs_of(sp)
+        nsp = dict(c11_spec(sp), note=bool(sp["note"]))
+        pool, tries = [], 0
+        while len(pool) < (40 if ctx.thorough else 18) and tries < 300:
+            tries += 1
+            items = [y_value(rng, sp, rng.choice([0, 0, 1, 2])) for _ in range(rng.randint(0, 3))]
+            v = rng.choice([list, tuple])(items) if rng.random() < 0.8 else {"k": items, "t": tuple(items[:2])}
+            try:
+                cands = [v, C11.normalise(rng, v, nsp, rich=True, p=0.6, log=[]), C05.rebuild(v, rng)]
+                cands.append(edit_once(rng, cands[1])[0])          # a genuine edit next to the ignored differences
+                cands.append(vmap(v, lambda a: y_atom(rng, sp) if rng.random() < 0.25 else a, lambda k: k))   # near-miss: a leaf replaced
+            except Exception:  # noqa
+                cands = [v]
+            for w in cands:
+                if not in_yuniverse(w, lists_ok=True) or harmful_alias(w, None, kw):
+                    continue
+                try:
+                    x = copy.deepcopy(w)
+                    DeepHash(x, **kw)[x]
+                except Exception:  # noqa (a leaf DeepHash raises on: outside this observable)
+                    continue
+                pool.append(w)
+        for rep in (False, True):
+            hs = []
+            for v in pool:
+                x = copy.deepcopy(v)
+                hs.append(DeepHash(x, ignore_repetition=not rep, **kw)[x])
+            first = [hs.index(h) for h in hs]
+            cases.append(("run_c12y_classes %s %s [%s]" % (y_opts(sp), core.coq_bool(rep), "; ".join(y_to_coq(v) for v in pool)),
+                          first, {"options": name_of(sp), "rep": rep, "pool": [lit(v) for v in pool][:4]}))
+            ctx.count("ypool:values", len(pool))
+            ctx.count("ypool:classes", len(set(first)))
+    ctx.coq_cases("c12y_pool", YHEADER, cases, shard=2, label="sha256_equality_pattern_over_pools_of_lists_and_tuples_of_extended_atoms(all options)")
 
 
 def _ytask(args):
@@ -2236,6 +2288,8 @@ def run(ctx):
     text_level(ctx, mspecs)
     lap("coq:atoms")
     pools(ctx, mspecs if ctx.thorough else rng.sample(mspecs, 6))
+    ys = y_specs(rng)
+    y_pools(ctx, ys if ctx.thorough else rng.sample(ys, 8))
     lap("coq:pools")
     ctx.note("phase_seconds", phases)
     ctx.note("modelled_options", [name_of(s) for s in mspecs])
